@@ -18,6 +18,24 @@ use serde_json::json;
 
 type Rec = (String, u64, Vec<u8>);
 
+/// A storage backend that answers the start-up read with whatever the case prescribes.
+struct MockStorage {
+    respond: Box<dyn Fn(&[u8]) -> (Mutations, Vec<u8>) + Send + Sync>,
+}
+
+#[async_trait::async_trait]
+impl vls_frontend::external_persist::ExternalPersist for MockStorage {
+    async fn put(&self, _mutations: Mutations, _client_hmac: &[u8]) -> Result<Vec<u8>, vls_frontend::external_persist::Error> {
+        Err(vls_frontend::external_persist::Error::NotAvailable)
+    }
+    async fn get(&self, _key_prefix: String, nonce: &[u8]) -> Result<(Mutations, Vec<u8>), vls_frontend::external_persist::Error> {
+        Ok((self.respond)(nonce))
+    }
+    async fn info(&self) -> Result<vls_frontend::external_persist::Info, vls_frontend::external_persist::Error> {
+        Err(vls_frontend::external_persist::Error::NotAvailable)
+    }
+}
+
 #[derive(Clone, Debug, Serialize, Deserialize, PartialEq, Eq, Hash)]
 pub enum VTamper {
     None,
@@ -82,6 +100,13 @@ pub enum Case {
     /// (same seed, different starting time) must not produce the same nonce sequence, or a reply
     /// recorded in one lifetime verifies in the next
     Entropy { seed: [u8; 32], t1: (u64, u32), t2: (u64, u32), k: u8, ldk: bool },
+    /// vlsd's start-up read of the whole external state (vls-util
+    /// `ExternalPersistWithHelper::init_state`) against a storage that holds `recs` (distinct
+    /// keys) and answers the read with a response the adversary can assemble without the shared
+    /// secret: `tamper` 0 honest; 1 no records, honest tag; 2 no records, garbage tag; 3 last record
+    /// dropped; 4 one record with a lower version and another value; 5 a complete older response
+    /// (records and tag recorded under an earlier nonce); 6 records in reverse order, honest tag
+    Startup { secret: [u8; 32], recs: Vec<Rec>, tamper: u8, pick: u8 },
 }
 
 fn key_strat() -> impl Strategy<Value = String> {
@@ -488,6 +513,74 @@ impl C17 {
         }
     }
 
+    /// vlsd's start-up read through vls-util's driver, against a mock storage.
+    fn run_startup(&self, secret: &[u8; 32], recs: &[Rec], tamper: u8, pick: u8, st: &mut CaseStats, ctx: &Ctx) -> Result<(), Violation> {
+        use std::collections::BTreeMap;
+        use std::sync::{Arc, Mutex};
+        // the true state: distinct keys (a store holds one record per key), versions below 2^63
+        let mut truth: BTreeMap<String, (u64, Vec<u8>)> = BTreeMap::new();
+        for (k, v, val) in recs.iter() {
+            truth.insert(k.clone(), (*v & (u64::MAX >> 1), val.clone()));
+        }
+        let recs: Vec<Rec> = truth.iter().map(|(k, (v, val))| (k.clone(), *v, val.clone())).collect();
+        let tamper = tamper % 7;
+        let name = ["honest", "emptied-honest-tag", "emptied-garbage-tag", "last-record-dropped", "stale-record", "old-response-replayed", "reversed-order"][tamper as usize];
+        // what the adversary serves
+        let mut served = recs.clone();
+        match tamper {
+            1 | 2 => served.clear(),
+            3 => { served.pop(); }
+            4 => {
+                if !served.is_empty() {
+                    let i = crate::engine::pick_idx((pick as u16) << 8, served.len());
+                    served[i].1 = served[i].1.saturating_sub(1);
+                    served[i].2.push(0x5a);
+                }
+            }
+            6 => served.reverse(),
+            _ => {}
+        }
+        let served_map: BTreeMap<String, (u64, Vec<u8>)> = served.iter().map(|(k, v, val)| (k.clone(), (*v, val.clone()))).collect();
+        let secret_c = *secret;
+        let honest = recs.clone();
+        let mock = MockStorage { respond: Box::new(move |nonce: &[u8]| {
+            let tag = match tamper {
+                2 => vec![0x11u8; 32],
+                5 => compute_shared_hmac(&secret_c, &[0x33u8; 32], &muts(&honest)).to_vec(),
+                // the tag the genuine server computes for this request over the genuine records
+                _ => compute_shared_hmac(&secret_c, nonce, &muts(&honest)).to_vec(),
+            };
+            (muts(&served), tag)
+        }) };
+        let state: Arc<Mutex<BTreeMap<String, (u64, Vec<u8>)>>> = Arc::new(Mutex::new(BTreeMap::new()));
+        let ep = vls_util::persist::ExternalPersistWithHelper {
+            persist_client: Arc::new(tokio::sync::Mutex::new(Box::new(mock) as Box<dyn vls_frontend::external_persist::ExternalPersist>)),
+            state: state.clone(),
+            helper: ExternalPersistHelper::new(*secret),
+        };
+        let res = std::panic::catch_unwind(std::panic::AssertUnwindSafe(|| {
+            let rt = tokio::runtime::Builder::new_current_thread().build().expect("runtime");
+            rt.block_on(ep.init_state());
+        }));
+        let accepted = res.is_ok();
+        st.class(format!("startup:{}:{}", name, if accepted { "accepted" } else { "refused" }));
+        if accepted {
+            let local = state.lock().unwrap_or_else(|e| e.into_inner()).clone();
+            if local != truth {
+                return ctx.report(st, Violation::new(
+                    format!("C17:startup:tampered-state-accepted:{}", name),
+                    format!("init_state accepted a [{}] response: local state has {} records, the stored state {} (served {:?}, true {:?})", name, local.len(), truth.len(), served_map.keys().collect::<Vec<_>>(), truth.keys().collect::<Vec<_>>()),
+                ));
+            }
+        }
+        if tamper != 0 && served_map != truth {
+            st.nontrivial_shape(("startup", name, recs.len().min(3)));
+        } else if tamper == 0 && accepted {
+            st.nontrivial_shape(("startup-honest", recs.len().min(3)));
+        }
+        Ok(())
+    }
+
     fn run_shared(&self, secret: &[u8; 32], recs: &[Rec], tamper: &STamper, lss_impl: bool, server_tag: bool, st: &mut CaseStats, ctx: &Ctx) -> Result<(), Violation> {
         let recs: Vec<Rec> = recs.iter().map(|(k, v, val)| (k.clone(), *v & (u64::MAX >> 1), val.clone())).collect();
         let helper = ExternalPersistHelper::new(*secret);
@@ -703,6 +796,8 @@ impl Prop for C17 {
                 .prop_map(|(secret, recs, n1, n2, tamper, which, tag_mut)| Case::Nonce { secret, recs, n1, n2, tamper, which, tag_mut }),
             1 => (any::<[u8; 32]>(), (0u64..4, 0u32..3), (0u64..4, 0u32..3), 0u8..4, any::<bool>())
                 .prop_map(|(seed, t1, t2, k, ldk)| Case::Entropy { seed, t1: (1_700_000_000 + t1.0, t1.1), t2: (1_700_000_000 + t2.0, t2.1), k, ldk }),
+            1 => (any::<[u8; 32]>(), proptest::collection::vec(rec_strat(), 0..5), 0u8..7, any::<u8>())
+                .prop_map(|(secret, recs, tamper, pick)| Case::Startup { secret, recs, tamper, pick }),
         ]
         .boxed()
     }
@@ -713,6 +808,7 @@ impl Prop for C17 {
             Case::Shared { secret, recs, tamper, lss_impl, server_tag } => self.run_shared(secret, recs, tamper, *lss_impl, *server_tag, st, ctx),
             Case::Nonce { secret, recs, n1, n2, tamper, which, tag_mut } => self.run_nonce(secret, recs, n1, n2, tamper, *which, *tag_mut, st, ctx),
             Case::Entropy { seed, t1, t2, k, ldk } => self.run_entropy(seed, *t1, *t2, *k, *ldk, st, ctx),
+            Case::Startup { secret, recs, tamper, pick } => self.run_startup(secret, recs, *tamper, *pick, st, ctx),
         }
     }
     fn min_nontrivial(&self, tier: Tier) -> usize {
